@@ -10,6 +10,23 @@ package main
 //
 // Entry points: runSeq (hook of concfs.Main) and maybeSeqOnly (first statement
 // of main: serves the -seqonly, -seqworker and -seqcase modes and exits).
+//
+// Process structure: runSeq plans (seq_plan.go), then runs <=16 worker
+// processes of this binary (-seqworker i/n: cases with ordinal = i mod n) and,
+// concurrently, `$VERIF_BIN.ost -seqonly` (the avfs_setostype build, which
+// repeats everything for Linux-typed and adds Windows-typed file systems) when
+// that file exists. A worker announces every case in <prefix>.cur before
+// executing it, appends violating cases to <prefix>.viol and flushes its
+// counters to <prefix>.sum; the parent watches CPU time against progress,
+// turns a stuck worker into HANG and a dead one into FATAL of the announced
+// case, and restarts the worker behind that case.
+//
+// Useful invocations (through ./check, which builds both binaries):
+//
+//	./check C07 quick                          whole property (concurrent part + this)
+//	./check C07 quick -seqonly                 sequential part of the default build only, JSON on stdout
+//	./check C07 quick -seqcase '<case key>'    one case in-process (field "case" of a replay)
+//	C07_SEQ_INJECT=hang@1000,stack@2000,oom@3000 ./check C07 quick   watchdog self-test (see seqInject)
 
 import (
 	"bufio"
@@ -139,7 +156,7 @@ type seqViol struct {
 	Replay map[string]any    `json:"replay"`
 }
 
-type wsum struct {
+type seqSum struct {
 	From       int64            `json:"from"`
 	UpTo       int64            `json:"upto"` // every own case k with From <= k < UpTo was dealt with
 	Done       bool             `json:"done"`
@@ -155,11 +172,11 @@ type wsum struct {
 	HarnessErr string           `json:"harness_err"`
 }
 
-func newSum(from int64) *wsum {
-	return &wsum{From: from, UpTo: from, PerCov: map[string]int64{}, PerType: map[string]int64{}, Outcomes: map[string]int64{}, States: map[string]int64{}}
+func newSum(from int64) *seqSum {
+	return &seqSum{From: from, UpTo: from, PerCov: map[string]int64{}, PerType: map[string]int64{}, Outcomes: map[string]int64{}, States: map[string]int64{}}
 }
 
-func (s *wsum) add(o *wsum) {
+func (s *seqSum) add(o *seqSum) {
 	s.Calls += o.Calls
 	s.NA += o.NA
 	s.Sanctioned += o.Sanctioned
@@ -185,7 +202,7 @@ func (s *wsum) add(o *wsum) {
 	}
 }
 
-func typeKey(u *unit) string {
+func typeKey(u *seqUnit) string {
 	if u.T.OS == "Windows" {
 		return u.Type + "[Windows]"
 	}
@@ -245,7 +262,7 @@ func seqWorker(tier string) {
 		}
 	}
 
-	pl, err := buildPlan(tier)
+	pl, err := buildSeqPlan(tier)
 	if err != nil {
 		harness(err.Error())
 	}
@@ -322,7 +339,7 @@ units:
 			sum.PerCov[tk+"."+u.Method]++
 			sum.PerType[tk]++
 			sum.Outcomes[tk+"|"+u.Method+"|"+r.Kind]++
-			sum.States[u.stateKey()]++
+			sum.States[u.seqStateKey()]++
 
 			if len(sum.Samples) < 2 && j%7 == 3 {
 				args := u.tuple(j)
@@ -344,7 +361,7 @@ units:
 				harness(fmt.Sprintf("case %s not deterministic: %s %q then %s %q", u.caseKey(j), r.Kind, r.Msg, r2.Kind, r2.Msg))
 			}
 
-			b, _ := json.Marshal(rawViol{Ord: k, Kind: r.Kind, Msg: r.Msg, Where: r.Where})
+			b, _ := json.Marshal(seqRawViol{Ord: k, Kind: r.Kind, Msg: r.Msg, Where: r.Where})
 			_, _ = vf.Write(append(b, '\n'))
 		}
 	}
@@ -358,7 +375,7 @@ units:
 	os.Exit(0)
 }
 
-func joinClasses(u *unit, args []argv) string {
+func joinClasses(u *seqUnit, args []seqArg) string {
 	var cs []string
 
 	if u.HK != nil {
@@ -372,7 +389,7 @@ func joinClasses(u *unit, args []argv) string {
 	return strings.Join(cs, ",")
 }
 
-func showCall(u *unit, args []argv) string {
+func showCall(u *seqUnit, args []seqArg) string {
 	var a []string
 
 	if u.HK != nil {
@@ -395,7 +412,7 @@ type seqResult struct {
 	Cov   map[string]any `json:"cov"`
 }
 
-type crash struct {
+type seqCrash struct {
 	Ord    int64
 	Kind   string // HANG | FATAL
 	Msg    string
@@ -435,6 +452,8 @@ func readCur(path string) int64 {
 
 	return int64(binary.LittleEndian.Uint64(b[:8]))
 }
+
+var fatalFirstRe = regexp.MustCompile(`(?m)^fatal error: [^\n]*`)
 
 var fatalRe = regexp.MustCompile(`(?m)^(fatal error: [^\n]*|runtime: [^\n]*exceeds[^\n]*|panic: [^\n]*|signal: [^\n]*)`)
 
@@ -484,12 +503,14 @@ func (c *cappedBuffer) String() string {
 
 // driveWorker runs worker i of n to completion, restarting it after every hang
 // or fatal error.
-func driveWorker(self, tier, dir string, i, n int, deadline time.Time) (total *wsum, crashes []crash, err error) {
+func driveWorker(self, tier, dir string, i, n int, deadline time.Time) (total *seqSum, crashes []seqCrash, err error) {
 	base := filepath.Join(dir, fmt.Sprintf("w%d", i))
 	total = newSum(0)
 	from := int64(0)
 
 	var skip []string
+
+	unexplained := map[int64]int{}
 
 	for attempt := 0; ; attempt++ {
 		_ = os.Remove(base + ".sum")
@@ -561,10 +582,10 @@ func driveWorker(self, tier, dir string, i, n int, deadline time.Time) (total *w
 
 		tick.Stop()
 
-		var s *wsum
+		var s *seqSum
 
 		if b, e := os.ReadFile(base + ".sum"); e == nil {
-			s = &wsum{}
+			s = &seqSum{}
 			if json.Unmarshal(b, s) != nil {
 				s = nil
 			}
@@ -600,13 +621,26 @@ func driveWorker(self, tier, dir string, i, n int, deadline time.Time) (total *w
 			return total, crashes, fmt.Errorf("worker %d: inconsistent progress files (cur %d < flushed %d)", i, k, from)
 		}
 
-		c := crash{Ord: k, Kind: "FATAL", Stderr: stderrTail(stderr.String(), 60)}
+		c := seqCrash{Ord: k, Kind: "FATAL", Stderr: stderrTail(stderr.String(), 60)}
 		if hung {
 			c.Kind = "HANG"
 		} else {
-			c.Msg = fatalRe.FindString(stderr.String())
+			c.Msg = fatalFirstRe.FindString(stderr.String())
 			if c.Msg == "" {
-				c.Msg = fmt.Sprint("worker exited: ", werr)
+				c.Msg = fatalRe.FindString(stderr.String())
+			}
+
+			if c.Msg == "" {
+				// the worker vanished without a word from the Go runtime (killed
+				// from outside, e.g. by the kernel's OOM killer on a crowded
+				// machine): that says nothing about the case. Run it again; only
+				// a second silent death at the same case is reported.
+				unexplained[k]++
+				if unexplained[k] < 2 && attempt < maxRestarts {
+					continue
+				}
+
+				c.Msg = fmt.Sprint("worker exited twice at this case: ", werr)
 			}
 		}
 
@@ -647,7 +681,7 @@ func seqParent(tier string, deadline time.Time, withOst bool) (*seqResult, error
 		return nil, err
 	}
 
-	pl, err := buildPlan(tier)
+	pl, err := buildSeqPlan(tier)
 	if err != nil {
 		return nil, err
 	}
@@ -739,7 +773,7 @@ func seqParent(tier string, deadline time.Time, withOst bool) (*seqResult, error
 		wg      sync.WaitGroup
 		mu      sync.Mutex
 		total   = newSum(0)
-		crashes []crash
+		crashes []seqCrash
 		herr    error
 		minStop = pl.Total
 		stopped bool
@@ -787,7 +821,7 @@ func seqParent(tier string, deadline time.Time, withOst bool) (*seqResult, error
 	res := &seqResult{}
 	seen := map[int64]bool{}
 
-	var raws []rawViol
+	var raws []seqRawViol
 
 	for i := 0; i < n; i++ {
 		f, err := os.Open(filepath.Join(dir, fmt.Sprintf("w%d.viol", i)))
@@ -799,7 +833,7 @@ func seqParent(tier string, deadline time.Time, withOst bool) (*seqResult, error
 		sc.Buffer(make([]byte, 4<<20), 4<<20)
 
 		for sc.Scan() {
-			var v rawViol
+			var v seqRawViol
 			if json.Unmarshal(sc.Bytes(), &v) != nil || seen[v.Ord] {
 				continue
 			}
@@ -820,7 +854,7 @@ func seqParent(tier string, deadline time.Time, withOst bool) (*seqResult, error
 			return nil, fmt.Errorf("crash at unknown case %d", c.Ord)
 		}
 
-		raws = append(raws, rawViol{Ord: c.Ord, Kind: c.Kind, Msg: c.Msg, Where: c.Where})
+		raws = append(raws, seqRawViol{Ord: c.Ord, Kind: c.Kind, Msg: c.Msg, Where: c.Where})
 		crashErr[c.Ord] = c.Stderr
 
 		tk := typeKey(u)
@@ -828,7 +862,7 @@ func seqParent(tier string, deadline time.Time, withOst bool) (*seqResult, error
 		total.PerCov[tk+"."+u.Method]++
 		total.PerType[tk]++
 		total.Outcomes[tk+"|"+u.Method+"|"+c.Kind]++
-		total.States[u.stateKey()]++
+		total.States[u.seqStateKey()]++
 	}
 
 	sort.Slice(raws, func(i, j int) bool { return raws[i].Ord < raws[j].Ord })
@@ -918,15 +952,27 @@ func seqParent(tier string, deadline time.Time, withOst bool) (*seqResult, error
 	var full []string
 
 	if stopped {
-		seenU := map[string]bool{}
+		// layers (OS type, section, pre-state depth) all of whose cases lie below
+		// the lowest stop point of the workers
+		complete := map[string]bool{}
+
+		var order []string
 
 		for _, u := range pl.Units {
-			if u.Base+u.N <= minStop {
-				k := fmt.Sprintf("%s/%s states of depth %d", u.T.OS, u.Sec, len(u.St.Muts))
-				if !seenU[k] {
-					seenU[k] = true
-					full = append(full, k)
-				}
+			k := fmt.Sprintf("%s/%s/pre-states of %d mutators", u.T.OS, u.Sec, len(u.St.Muts))
+			if _, ok := complete[k]; !ok {
+				complete[k] = true
+				order = append(order, k)
+			}
+
+			if u.Base+u.N > minStop {
+				complete[k] = false
+			}
+		}
+
+		for _, k := range order {
+			if complete[k] {
+				full = append(full, k)
 			}
 		}
 	}
@@ -961,6 +1007,7 @@ func seqParent(tier string, deadline time.Time, withOst bool) (*seqResult, error
 		"seq_exhaustive":               !stopped,
 		"seq_mutator_depth":            depth,
 		"seq_helper_functions_checked": nhelpers,
+		"seq_domain_sizes":             domainSizes(tier),
 		"seq_workers":                  n,
 		"seq_wall_s":                   time.Since(t0).Seconds(),
 		"seq_samples":                  total.Samples,
@@ -1006,6 +1053,21 @@ func seqParent(tier string, deadline time.Time, withOst bool) (*seqResult, error
 	return res, nil
 }
 
+// domainSizes reports the sizes of the main argument domains of the tier.
+func domainSizes(tier string) map[string]int {
+	d := newDom(false, tier == "thorough")
+	w := newDom(true, tier == "thorough")
+
+	return map[string]int{
+		"paths": len(d.paths), "paths_core_for_tuples": len(d.core), "paths_windows": len(w.paths), "open_flags": len(d.flags()),
+		"file_modes": len(modeDomain()), "uid_gid": len(idDomain(tInt)), "sizes": len(sizeDomain(tInt64)), "offsets": len(offsetDomain(tInt64)),
+		"whence": len(whenceDomain(tInt)), "glob_patterns": len(d.globPatterns()), "match_patterns": len(d.matchPatterns()),
+		"temp_patterns": len(d.tmpPatterns()), "names": len(d.names()), "volume_names": len(d.volumes()), "join_tuples": len(d.joinElems()),
+		"walk_funcs": len(walkFuncs()), "write_buffers": len(writeData()), "read_buffers": len(readBufs()),
+		"handle_kinds_fixed": len(handleKinds(d)), "handle_mutators": len(handleMutators), "vfs_mutators": len(seqMutators),
+	}
+}
+
 func methodNames(it reflect.Type) []string {
 	var out []string
 	for i := 0; i < it.NumMethod(); i++ {
@@ -1037,7 +1099,7 @@ func runSeq(tier string, rep *kf.Reporter) (map[string]any, error) {
 func seqOneCase(tier, key string) {
 	verifrt.SetMode(verifrt.ModeSeq)
 
-	pl, err := buildPlan(tier)
+	pl, err := buildSeqPlan(tier)
 	if err != nil {
 		fmt.Fprintln(os.Stderr, err)
 		os.Exit(2)
